@@ -155,6 +155,8 @@ impl Property for C19 {
             "between two yield points a thread runs alone: the scheduler serialises execution, so it shows the logical effect of shared state but not data-race undefined behaviour".into(),
             "every write to the thread-local parser state is preceded by a yield point (hook H2), so any cross-thread influence through it is exposed at block granularity".into(),
             "hooks faithful (repo tests pass guard on/off)".into(),
+            "process-wide OS state outside the simulated file system is not modelled: the real working directory of the process is never changed by the harness and a change that goes through std::env::set_current_dir is inert on simulated paths (seeded change C19-r6a is not caught)".into(),
+            "blocking synchronisation that a change brings with it has no yield point between its two ends; only the free-running supplement (1/8 of the runs, interleaving not decided, statistical replay) can expose it".into(),
         ]
     }
     fn required_probes(&self) -> Vec<&'static str> {
